@@ -401,6 +401,7 @@ func (g *progGen) opAdmin() {
 		case 0:
 			r.All = true
 		case 1:
+			r.AllFalse = g.rng.Intn(2) == 0 // "delete all: false" names nothing, like no target at all
 		default:
 			r.HasPfx = true
 			r.Prefix = [][]byte{[]byte("a"), []byte("a\x00"), {0xff}, []byte("b"), {}, []byte("ro"), []byte("ab"), {0xff, 0xff}, []byte("zzz"), []byte("a\xff"), []byte("b\xff"), []byte("a\xff\xff")}[g.rng.Intn(12)]
@@ -516,7 +517,9 @@ func genPrograms(prop, out, tier string, rng *rand.Rand) {
 		// directed: predicates that never look at cells (and compositions of them), on an existing and on a
 		// missing row; the branch mutations do not touch the existing cells, so "nothing else changes" shows
 		t := tname(parentA, "t1")
-		rk := func(lit byte) *Filter { return &Filter{Kind: "rowkey", Rx: &Regex{Re: &Re{Kind: "cat", A: &Re{Kind: "lit", B: int(lit)}, C: &Re{Kind: "star", A: &Re{Kind: "any"}}}}} }
+		rk := func(lit byte) *Filter {
+			return &Filter{Kind: "rowkey", Rx: &Regex{Re: &Re{Kind: "cat", A: &Re{Kind: "lit", B: int(lit)}, C: &Re{Kind: "star", A: &Re{Kind: "any"}}}}}
+		}
 		base := []*Filter{{Kind: "pass", Flag: true}, {Kind: "block", Flag: true}, rk('r'), rk('z'), {Kind: "sample", Prob: 0.5}, {Kind: "strip"}, {Kind: "rowlimit", N: 0}, {Kind: "collimit", N: 1}}
 		var preds []*Filter
 		preds = append(preds, base...)
@@ -600,6 +603,38 @@ func genPrograms(prop, out, tier string, rng *rand.Rand) {
 				}
 			}
 		}
+		// directed: server-assigned timestamps against the injected clock: a write at server time that
+		// lands on the timestamp of an existing cell (written explicitly, or at server time within the same
+		// millisecond, in another request or earlier in the same one) replaces it; next to older, newer
+		// (future) and no cells
+		st := func(q, v string) Mutation {
+			return Mutation{Kind: "set", Fam: "cf", Q: []byte(q), Ts: -1, V: []byte(v)}
+		}
+		ex := func(q string, ts int64, v string) Mutation {
+			return Mutation{Kind: "set", Fam: "cf", Q: []byte(q), Ts: ts, V: []byte(v)}
+		}
+		for _, en := range engines() {
+			for _, clk := range []int64{2500, 2000, 0, 1234567, 2999} {
+				ms := clk - clk%1000
+				mut := func(now int64, ms ...Mutation) Call {
+					return Call{Req: Req{Kind: "mutate", Table: t, Key: []byte("r1"), Muts: ms}, Now: now}
+				}
+				rd := Call{Req: Req{Kind: "read", Table: t}, Now: clk}
+				progs := [][]Call{
+					{mut(clk, ex("q", ms, "explicit")), mut(clk, st("q", "server")), rd, mut(clk, st("q", "server-again")), rd, mut(clk+999-clk%1000, st("q", "same-ms")), rd},
+					{mut(clk, st("q", "one"), st("q", "two")), rd, mut(clk, st("q", "three"), ex("q", ms, "four"), st("q", "five")), rd},
+					{mut(clk, ex("q", ms+1000, "future"), ex("q", ms, "now")), mut(clk, st("q", "server")), rd, mut(clk+1000, st("q", "later")), rd},
+					{mut(clk, st("a", "1")), mut(clk, st("b", "2")), mut(clk, st("a", "3"), st("b", "4")), rd, mut(clk, Mutation{Kind: "delcol", Fam: "cf", Q: []byte("a")}), mut(clk, st("a", "5")), rd},
+				}
+				if ms >= 1000 {
+					progs = append(progs, []Call{mut(clk, ex("q", ms-1000, "older")), mut(clk, st("q", "server")), mut(clk, st("q", "server2")), rd})
+				}
+				for _, body := range progs {
+					prog := append([]Call{{Req: Req{Kind: "create", Parent: parentA, Tid: "t1", Fams: []FamDef{{Name: "cf"}}}, Now: 1000}}, body...)
+					dtasks = append(dtasks, Task{en, "server-time", prog})
+				}
+			}
+		}
 		RunTasks(sink, dtasks, progNontrivial)
 	}
 	if prop == "C05" {
@@ -659,7 +694,9 @@ func genPrograms(prop, out, tier string, rng *rand.Rand) {
 				}
 			}
 		}
-		cell := func(f, q string, ts int64, v string) Mutation { return Mutation{Kind: "set", Fam: f, Q: []byte(q), Ts: ts, V: []byte(v)} }
+		cell := func(f, q string, ts int64, v string) Mutation {
+			return Mutation{Kind: "set", Fam: f, Q: []byte(q), Ts: ts, V: []byte(v)}
+		}
 		setup := []Call{{Req: Req{Kind: "create", Parent: parentA, Tid: "t1", Fams: []FamDef{{Name: "cf"}, {Name: "cf2"}}}, Now: 1000},
 			{Req: Req{Kind: "mutate", Table: t, Key: []byte("r1"), Muts: []Mutation{cell("cf", "a", 1000, "v1"), cell("cf", "a", 2000, "v2"), cell("cf", "a", 3000, "x3"), cell("cf", "b", 2000, "v2"), cell("cf2", "a", 2000, "v3"), cell("cf2", "\x00\xff", 1000, "")}}, Now: 1000},
 			{Req: Req{Kind: "mutate", Table: t, Key: []byte("r2"), Muts: []Mutation{cell("cf", "b", 1000, "v1"), cell("cf", "b", 3000, "v9"), cell("cf", "c", 2000, "w")}}, Now: 1000},
@@ -763,6 +800,7 @@ func genPrograms(prop, out, tier string, rng *rand.Rand) {
 			{mod(FMod{Kind: "drop", ID: "cf"}), mod(FMod{Kind: "drop", ID: "cf2"}), rd, mod(FMod{Kind: "create", ID: "cf"}), mod(FMod{Kind: "create", ID: "cf2"}), rd, set("r1", "cf", "q", "9"), rd},
 			{{Req: Req{Kind: "delete", Table: t}, Now: 1000}, rd, create, rd, get, set("r2", "cf", "q", "9"), rd},
 			{{Req: Req{Kind: "drop", Table: t, All: true}, Now: 1000}, rd, set("r2", "cf", "q", "9"), rd, mod(FMod{Kind: "drop", ID: "cf2"}), mod(FMod{Kind: "create", ID: "cf2"}), rd},
+			{{Req: Req{Kind: "drop", Table: t, AllFalse: true}, Now: 1000}, rd, {Req: Req{Kind: "drop", Table: t}, Now: 1000}, rd, {Req: Req{Kind: "drop", Table: t, HasPfx: true, Prefix: []byte{}}, Now: 1000}, rd, get},
 			{{Req: Req{Kind: "drop", Table: t, HasPfx: true, Prefix: []byte("r")}, Now: 1000}, rd, set("r2", "cf2", "q", "9"), rd, {Req: Req{Kind: "drop", Table: t, HasPfx: true, Prefix: []byte("s")}, Now: 1000}, rd},
 			{{Req: Req{Kind: "mutate", Table: t, Key: []byte("r3"), Muts: []Mutation{{Kind: "delfam", Fam: "cf2"}}}, Now: 1000}, {Req: Req{Kind: "mutate", Table: t, Key: []byte("r2"), Muts: []Mutation{{Kind: "delrow"}}}, Now: 1000}, rd, set("r2", "cf2", "only", "9"), set("r3", "cf2", "z", "9"), rd},
 		}
